@@ -167,6 +167,12 @@ class OptCase:
     def _run(self, res, seed):
         # an optimizer may test gradient values (e.g. "all zero?"): every feasible path is explored, the rule must hold on each
         sess = new_session()
+        # preconditions on the hyper-parameters BEFORE the exploration starts (the explorer's solver is loaded with sess.pre at the start of each path)
+        for nm, lo, hi in (("lr", 0, None), ("wd", 0, None), ("mu", 0, 1), ("tau", 0, 1), ("b1", 0, 1), ("b2", 0, 1), ("eps", 0, None)):
+            v = sess.var(nm)
+            sess.pre.append(v > lo)
+            if hi is not None:
+                sess.pre.append(v < hi)
         ex = core.Explorer(max_paths=64)
         stop = []
 
@@ -187,16 +193,11 @@ class OptCase:
             res["backends"][backend] = res["backends"].get(backend, 0) + 1
         import z3
         with shim.symbolic(eps="native"):
-            for nm, lo, hi in (("lr", 0, None), ("wd", 0, None), ("mu", 0, 1), ("tau", 0, 1), ("b1", 0, 1), ("b2", 0, 1), ("eps", 0, None)):
-                v = sess.var(nm)
-                sess.pre.append(v > lo)
-                if hi is not None:
-                    sess.pre.append(v < hi)
             try:
                 w = self._world("sym", sess)
             except ValueError as e:
-                res["status"] = "rejected"
-                res["notes"].append("constructor rejected the options: %s" % e)
+                # option_sets() only produces combinations the constructors document as valid: a rejection here means the case was NOT checked (vacuity guard)
+                res["errors"].append("%s %s: constructor rejected a documented option set: %s" % (self.name, self.key, e))
                 return
             P = w["p"]
             hp = w["hp"]
